@@ -36,8 +36,8 @@ class Run:
         self.obligations = []  # [(name, ok, detail)]
         self.axioms = {}
         os.makedirs(BUILD, exist_ok=True)
-        self.harness_bin = os.path.join(BUILD, "target", "release", "verif-harness")
-        self.driver_bin = os.path.join(BUILD, "ocaml", "driver")
+        self.area = None
+        self.harness_bin = self.driver_bin = None
         self.timings = {}
 
     def log(self, *a):
@@ -157,30 +157,33 @@ class Run:
         return ok
 
     # ------------------------------------------------------------------ runners
-    def build_driver(self):
+    def build_driver(self, area=None):
+        area = area or self.area
         t = time.time()
-        d = os.path.join(BUILD, "ocaml")
+        d = os.path.join(BUILD, "ocaml", area)
         os.makedirs(d, exist_ok=True)
-        srcs = [os.path.join(COQ, "extraction", "Extract.v"), os.path.join(VERIF, "ocaml", "driver.ml")]
+        self.driver_bin = os.path.join(d, "driver")
+        ext = os.path.join(COQ, "extraction", "Extract_%s.v" % area)
+        srcs = [ext, os.path.join(VERIF, "ocaml", "prelude.ml"), os.path.join(VERIF, "ocaml", area + ".ml")]
         h = hashlib.sha256()
         for root, _, files in os.walk(os.path.join(COQ, "theories")):
             for f in sorted(files):
-                if f.endswith(".v") and "Proofs" not in f and "/Props" not in root:
+                if f.endswith(".v") and "Proofs" not in f and not root.endswith("Props"):
                     h.update(open(os.path.join(root, f), "rb").read())
-        for s in srcs:
-            h.update(open(s, "rb").read())
+        for s_ in srcs:
+            h.update(open(s_, "rb").read())
         stamp = os.path.join(d, "stamp")
         if os.path.exists(self.driver_bin) and os.path.exists(stamp) and open(stamp).read() == h.hexdigest():
             self.timings["driver"] = time.time() - t
             return True
-        rc, out, err = sh(["coqc", "-noglob", "-Q", os.path.join(COQ, "theories"), "MS",
-                           os.path.join(COQ, "extraction", "Extract.v"), "-o", os.path.join(d, "Extract.vo")], cwd=d, timeout=900)
+        rc, out, err = sh(["coqc", "-noglob", "-Q", os.path.join(COQ, "theories"), "MS", ext,
+                           "-o", os.path.join(d, "Extract_%s.vo" % area)], cwd=d, timeout=900)
         if rc != 0:
             self.broken.append(("build", "extraction", (err or out)[-600:]))
             return False
-        sh(["cp", os.path.join(VERIF, "ocaml", "driver.ml"), d])
+        open(os.path.join(d, "driver.ml"), "w").write(open(srcs[1]).read() + "\n" + open(srcs[2]).read())
         rc, out, err = sh("ulimit -s unlimited 2>/dev/null; "
-                          "ocamlfind ocamlopt -package zarith,str -linkpkg -w -a model.mli model.ml driver.ml -o driver",
+                          "ocamlfind ocamlopt -package zarith,str -linkpkg -O3 -w -a model.mli model.ml driver.ml -o driver",
                           cwd=d, timeout=900)
         if rc != 0:
             self.broken.append(("build", "ocaml driver", (err or out)[-600:]))
@@ -189,12 +192,18 @@ class Run:
         self.timings["driver"] = time.time() - t
         return True
 
-    def build_harness(self):
+    def build_harness(self, area=None):
+        area = area or self.area
         t = time.time()
         d = os.path.join(BUILD, "harness")
         os.makedirs(d, exist_ok=True)
+        self.harness_bin = os.path.join(BUILD, "target", "release", "h_" + area)
+        bins = ""
+        for f in sorted(os.listdir(os.path.join(VERIF, "harness", "src"))):
+            if f.endswith(".rs") and f not in ("common.rs",) and not f.startswith("lib_"):
+                bins += '[[bin]]\nname = "h_%s"\npath = "%s/harness/src/%s"\n\n' % (f[:-3], VERIF, f)
         tmpl = open(os.path.join(VERIF, "harness", "Cargo.toml.in")).read()
-        toml = tmpl.replace("@REPO@", self.repo).replace("@VERIF@", VERIF)
+        toml = tmpl.replace("@BINS@", bins).replace("@REPO@", self.repo).replace("@VERIF@", VERIF)
         p = os.path.join(d, "Cargo.toml")
         if not os.path.exists(p) or open(p).read() != toml:
             open(p, "w").write(toml)
@@ -202,11 +211,11 @@ class Run:
         if not os.path.exists(lock):
             sh(["cp", os.path.join(self.repo, "Cargo.lock"), lock])
         env = {"CARGO_TARGET_DIR": os.path.join(BUILD, "target"), "RUSTFLAGS": "--cfg " + GUARD}
-        rc, out, err = sh(["cargo", "build", "--release", "--offline", "-q"], cwd=d, timeout=1500, env=env)
+        cmd = ["cargo", "build", "--release", "--offline", "-q", "--bin", "h_" + area]
+        rc, out, err = sh(cmd, cwd=d, timeout=1500, env=env)
         if rc != 0:
-            # a stale lock (e.g. dependency set changed) - retry once from the repo's lock
             sh(["cp", os.path.join(self.repo, "Cargo.lock"), lock])
-            rc, out, err = sh(["cargo", "build", "--release", "--offline", "-q"], cwd=d, timeout=1500, env=env)
+            rc, out, err = sh(cmd, cwd=d, timeout=1500, env=env)
         self.timings["harness"] = time.time() - t
         if rc != 0:
             self.broken.append(("build", "rust harness", err[-800:]))
@@ -327,6 +336,7 @@ def load_known(prop):
 # ---------------------------------------------------------------------- the generic check
 def execute(mod, tier, seed, replay=None, repo="/repo"):
     run = Run(mod.ID, tier, seed, repo)
+    run.area = mod.AREA
     known, fixed = load_known(mod.ID)
     known_ids = {k for k, _ in known}
     run.log("tier=%s seed=%d repo=%s" % (tier, seed, repo))
